@@ -196,6 +196,26 @@ def characterise_writer(facts, wb):
     return {"encoding": encoding, "terminator": zeros, "pad": pad_mod, "pad_pushes_zero": pad_push, "encoder": enc, "unknown": unknown, "wrong": wrong, "wrong_enc": wrong_enc}
 
 
+def untested_reads(ip):
+    """A terminator scan over 1-byte units: every byte consumed is compared with the terminator before the next one
+    is read.  On a path that does not end in an error, more unit reads than comparisons with zero means some byte is
+    swallowed unseen -- if it is the terminator, the string runs on into what follows.  Returns a witness or None."""
+    for p in ip:
+        if p.end == "ret" and is_err_term(p.ret) is not False:
+            continue
+        reads = len([e for e in p.events if e["k"] == "call" and e["callee"] and e["callee"].endswith("FnMut::call_mut")])
+        tests = 0
+        for (bb, t, vals, neg, dty) in p.conds:
+            if t[0] == "bin" and t[1] in ("Eq", "Ne") and t[3][:2] == ("const", 0) and any(
+                    x[0] == "call" and x[1].endswith("FnMut::call_mut") for x in walk(t[2])):
+                tests += 1
+        if reads > tests and tests >= 1:
+            others = [fmt(t)[:50] for (bb, t, vals, neg, dty) in p.conds if not (t[0] == "bin" and t[1] in ("Eq", "Ne") and t[3][:2] == ("const", 0)) and t[0] != "discr"]
+            return "a pass through the scan loop reads %d byte(s) and compares %d with the terminator%s: a NUL in the uncompared position is swallowed and the string runs on" % (
+                reads, tests, (" (taken when %s)" % others[0]) if others else "")
+    return None
+
+
 def characterise_reader(facts, rb):
     """(encoding, terminator width, pad modulus, bom) of an EncodedStringReader method on BinArchiveReader."""
     try:
@@ -235,6 +255,11 @@ def characterise_reader(facts, rb):
             for x in walk(term):
                 if x[0] == "bin" and x[1] == "Rem" and x[3][0] == "const" and any(y[0] == "call" and y[1].endswith("::tell") for y in walk(x[2])):
                     pad_mod = x[3][1]
+    from padform import closed_form_padding
+    closed = closed_form_padding(paths)
+    pad_wrong_by_unit = {}
+    if closed is not None:
+        _ok_any, skip_unknown, pad_wrong_by_unit = closed
     if impl is None:
         # no byte-level decoder behind it: a reader that assembles 16-bit units itself with the archive's
         # endian-aware accessor decodes in the *archive's* byte order
@@ -242,6 +267,8 @@ def characterise_reader(facts, rb):
         u16s = [n for n in names if n.endswith("BinArchiveReader::<'a>::read_u16") or n.endswith("BinArchive::read_u16")]
         dec16 = [n for n in names if n.endswith("String::from_utf16") or n.endswith("String::from_utf16_lossy") or n.endswith("char::decode_utf16")]
         if u16s and dec16:
+            if closed is not None:
+                skips = skip_unknown is None and 2 not in pad_wrong_by_unit
             return {"encoding": "UTF_16(archive endianness)", "terminator": 2, "reads_per_unit": 2, "pad": pad_mod, "pad_skips": skips,
                     "bom_sniffing": False, "decoders": sorted(dec16), "impl": rb.name, "unknown": None if skips else skip_unknown}
         return None
@@ -274,9 +301,13 @@ def characterise_reader(facts, rb):
                             zero_tests += len(a[4])
             reads = len([e for e in p.events if e["k"] == "call" and e["callee"] and e["callee"].endswith("FnMut::call_mut")])
             term = (zero_tests, reads)
+    unit_ = 2 if (encoding or "").startswith("UTF_16") else 1
+    untested = untested_reads(ip) if unit_ == 1 else None
+    if closed is not None:
+        skips = skip_unknown is None and unit_ not in pad_wrong_by_unit
     return {"encoding": encoding, "terminator": term[0] if term else None, "reads_per_unit": term[1] if term else None,
             "pad": pad_mod, "pad_skips": skips, "bom_sniffing": bom, "decoders": sorted(dec), "impl": impl,
-            "unknown": None if skips else skip_unknown}
+            "unknown": None if skips else skip_unknown, "pad_wrong": pad_wrong_by_unit.get(unit_), "untested_read": untested}
 
 
 def run(facts, rep, ctx):
@@ -399,10 +430,16 @@ def run(facts, rep, ctx):
             rep.inconc(R1, "format %s: title handling of the writer not recognised" % f)
         elif bool(w[f]["title"]) != bool(r[f]["title"]):
             rep.violation(R1, par.name, "title:" + f, "format %s: title written: %s, title read: %s" % (f, bool(w[f]["title"]), bool(r[f]["title"])), "%s:%s" % (par.file, par.line))
+    for rn, rc in sorted(rchar.items()):
+        if rc and rc.get("untested_read"):
+            rep.violation(R1, rn, "reader-unit", "%s: %s" % (rn.rsplit("::", 1)[-1], rc["untested_read"]), "")
     for wn, wc in sorted(wchar.items()):
         if wc and wc.get("wrong_enc"):
             rep.violation(R1, wn, "encoding-truncates", "%s: %s" % (wn.rsplit("::", 1)[-1], wc["wrong_enc"]), "")
     # ---- R06.2 padding ------------------------------------------------------------------------
+    for rn, rc in sorted(rchar.items()):
+        if rc and rc.get("pad_wrong"):
+            rep.violation(R2, rn, "reader-padding", "%s: %s" % (rn.rsplit("::", 1)[-1], rc["pad_wrong"]), "")
     for wn, wc in sorted(wchar.items()):
         if not wc:
             continue
